@@ -492,6 +492,30 @@ def run(index, rep, tier):
             raise AnalysisError("R19.17: CharacterMatrix._get_sequence_size is gone")
         rep.ob("R19.17", ssz.qualname, "%d tests against self.sequence_size in the matrix classes examined" % n17, fn_where(ssz))
 
+    # ---- R19.18 a namespace taken out of the keyword arguments goes back in
+    with rep.section("R19.18"):
+        rep.rule("R19.18", "a namespace taken out of the keyword arguments goes back in: process_kwargs_dict_for_taxon_namespace() POPS the caller's `taxon_namespace` out of kwargs; a matrix-model function that does so and then forwards `**kwargs` to a reading call puts the namespace back (a store `kwargs['taxon_namespace'] = ...`, or an explicit `taxon_namespace=` argument) on EVERY path to that call - otherwise each source is read into a namespace of its own, the caller's namespace stays empty and concatenation refuses the pieces ('Different taxon_namespace references')")
+        n18 = 0
+        for f in index.functions_in_module("dendropy.datamodel.charmatrixmodel"):
+            g = cfg_of(f)
+            pops = [nd for nd in g.nodes if any(call_name(c) == "process_kwargs_dict_for_taxon_namespace" and c.args and norm(c.args[0]) == "kwargs" for c in node_calls(nd))]
+            if not pops:
+                continue
+            fwd = [nd for nd in g.nodes if any(has_star_kwargs(c) and get_kwarg(c, "taxon_namespace") is None and (call_name(c) or "") in ("get", "get_from_stream", "get_from_path", "get_from_string", "get_from_url", "read", "read_from_stream", "read_from_path", "read_from_string") for c in node_calls(nd))]    # the reading front ends take the namespace as an option; get_reader() takes reader options only (the namespace travels in a factory)
+            if not fwd:
+                continue
+            n18 += 1
+            fid = {id(x) for x in fwd}
+
+            def puts_back(nd):
+                return nd.kind == "stmt" and isinstance(nd.ast, ast.Assign) and any(isinstance(t, ast.Subscript) and norm(t.value) == "kwargs" and isinstance(t.slice, ast.Constant) and t.slice.value == "taxon_namespace" for t in nd.ast.targets)
+            w = None
+            for pnode in pops:
+                w = w or g.can_reach(pnode, lambda nd: id(nd) in fid, avoid=puts_back, follow_exc=False)
+            rep.check(w is None, "R19.18", f.qualname, "the caller's namespace is not handed on to the reader", fn_where(f, w.stmt if w is not None else None), "%s puts the namespace back before `**kwargs` is forwarded" % f.name,
+                      "%s pops the caller's taxon_namespace out of kwargs and can reach `%s` without putting it back: with `taxon_namespace=ns` given, every stream is read into a fresh namespace - concatenate() then raises ValueError (different namespaces) for two or more sources, and for one source the result is over another namespace than the caller's, which stays empty" % (f.qualname, norm_stmt(w.stmt)[:60] if w is not None and w.stmt is not None else ""))
+        rep.floor("R19.18", "functions that pop the namespace and forward **kwargs", 1, n18)
+
 
 def _r19_3(rep, fi, seeds):
     t = tainted_names(fi, seeds)
